@@ -310,7 +310,7 @@ func TestC18(t *testing.T) {
 		"the spec derivation from the XML; enum constants; dialect version; second generation byte-identical; negative definitions must not initialize; the same for trees fetched by URL from a loopback web server (nested relative includes in sub-directories). " +
 		"programs = top-level dialects generated; disagreements_checked = individual comparisons; distinct = (dialect, message)")
 	rep.Assume("reference derivation harness/ref.LayoutFromXML (independent of pkg/conversion and of pkg/message)")
-	rep.Assume("link mode is not exercised (generated imports would point into the repository); remote (URL) definitions are fetched from a web server on the loopback interface")
+	rep.Assume("link mode is exercised with one fixture whose generated package refers to nothing outside itself (the merged enum moves into it); remote (URL) definitions are fetched from a web server on the loopback interface")
 	seed := vh.Seed()
 	st := &c18stats{}
 	enumRes := &probe.EnumResult{}
@@ -325,6 +325,10 @@ func TestC18(t *testing.T) {
 		runBatchOf(rep, rb, fmt.Sprintf("vr%d", ri), st, enumRes, true)
 		rep.Count("remote_dialects", len(rb.Tops))
 	}
+	// link mode (--link): the include is named like a shipped dialect and is not generated; what the generated package
+	// defines itself (its message, its enum, the enum merged with the include's) follows the XML all the same
+	runBatchOf(rep, genLinkBatch(vh.Sub(seed, "c18-link"), "vk"), "vk", st, enumRes, true)
+	rep.Count("link_mode_dialects", 1)
 	// negative definitions
 	neg := negativeCases()
 	var names []string
